@@ -54,8 +54,22 @@ type mutexState struct {
 	locked  bool
 	readers int
 	owner   *thread
-	rel     vclock
+	rel     vclock // clock of the last (write) unlock
+	rrel    vclock // join of the clocks of the read unlocks
 }
+
+type onceState struct {
+	done, running bool
+	clock         vclock
+}
+
+type wgState struct {
+	n     int64
+	clock vclock
+}
+
+var onces = map[*value]*onceState{}
+var wgs = map[*value]*wgState{}
 
 var mutexes = map[*value]*mutexState{}
 var onceDone = map[*value]bool{}
@@ -63,6 +77,8 @@ var onceDone = map[*value]bool{}
 func resetSideTables() {
 	mutexes = map[*value]*mutexState{}
 	onceDone = map[*value]bool{}
+	onces = map[*value]*onceState{}
+	wgs = map[*value]*wgState{}
 }
 
 func mutexOf(p *value) *mutexState {
@@ -319,6 +335,26 @@ func init() {
 		return ext۰strconv۰FormatFloat(fr, []value{conc(a[0]), conc(a[1]), conc(a[2]), conc(a[3])})
 	})
 	reg("os.Getenv", func(fr *frame, a []value) value { return "" })
+	// sort.Slice/SliceStable: reflection based swapper in the standard library; here a stable
+	// insertion sort that calls the target's less function on the live slice
+	sortSlice := func(fr *frame, a []value) value {
+		x, ok := a[0].(iface).v.([]value)
+		if !ok {
+			panic(unsupported{"sort.Slice of a non-slice"})
+		}
+		for i := 1; i < len(x); i++ {
+			for j := i; j > 0; j-- {
+				r := call(fr.i, fr, token.NoPos, a[1], []value{j, j - 1})
+				if !conc(r).(bool) {
+					break
+				}
+				x[j], x[j-1] = x[j-1], x[j]
+			}
+		}
+		return nil
+	}
+	reg("sort.Slice", sortSlice)
+	reg("sort.SliceStable", sortSlice)
 	reg("os.LookupEnv", func(fr *frame, a []value) value { return tuple{"", false} })
 
 	// ---- internal/bytealg ----
@@ -343,6 +379,9 @@ func init() {
 	}
 	reg("internal/bytealg.Count", func(fr *frame, a []value) value { return count(a[0].([]value), a[1]) })
 	reg("internal/bytealg.CountString", func(fr *frame, a []value) value { return count(strBytes(a[0]), a[1]) })
+	reg("internal/bytealg.CompareString", func(fr *frame, a []value) value {
+		return externals["internal/bytealg.Compare"](fr, []value{strBytes(a[0]), strBytes(a[1])})
+	})
 	reg("internal/bytealg.Compare", func(fr *frame, a []value) value {
 		x, y := a[0].([]value), a[1].([]value)
 		for i := 0; i < len(x) && i < len(y); i++ {
@@ -626,12 +665,19 @@ func init() {
 		lock(fr, a)
 		return true
 	})
-	reg("(*sync.RWMutex).Lock", lock)
+	reg("(*sync.RWMutex).Lock", func(fr *frame, a []value) value {
+		m := mutexOf(a[0].(*value))
+		if ex.threads != nil {
+			ex.threads.wlock(fr, m)
+			return nil
+		}
+		return lock(fr, a)
+	})
 	reg("(*sync.RWMutex).Unlock", unlock)
 	reg("(*sync.RWMutex).RLock", func(fr *frame, a []value) value {
 		m := mutexOf(a[0].(*value))
 		if ex.threads != nil {
-			ex.threads.lock(fr, m) // readers serialised: conservative
+			ex.threads.rlock(fr, m)
 			return nil
 		}
 		if m.locked {
@@ -642,8 +688,11 @@ func init() {
 	})
 	reg("(*sync.RWMutex).RUnlock", func(fr *frame, a []value) value {
 		m := mutexOf(a[0].(*value))
+		if m.readers <= 0 {
+			panic(targetPanic{iface{fr.i.runtimeErrorString, "sync: RUnlock of unlocked RWMutex"}})
+		}
 		if ex.threads != nil {
-			ex.threads.unlock(fr, m)
+			ex.threads.runlock(fr, m)
 			return nil
 		}
 		m.readers--
@@ -651,6 +700,10 @@ func init() {
 	})
 	reg("(*sync.Once).Do", func(fr *frame, a []value) value {
 		p := a[0].(*value)
+		if ex.threads != nil {
+			ex.threads.once(fr, p, a[1])
+			return nil
+		}
 		if onceDone[p] {
 			return nil
 		}
@@ -667,8 +720,41 @@ func init() {
 		return call(fr.i, fr, token.NoPos, nf, nil)
 	})
 	reg("(*sync.Pool).Put", func(fr *frame, a []value) value { return nil })
-	reg("(*sync.WaitGroup).Add", func(fr *frame, a []value) value { return nil })
-	reg("(*sync.WaitGroup).Done", func(fr *frame, a []value) value { return nil })
+	wgOf := func(p *value) *wgState {
+		w := wgs[p]
+		if w == nil {
+			w = &wgState{}
+			wgs[p] = w
+		}
+		return w
+	}
+	reg("(*sync.WaitGroup).Add", func(fr *frame, a []value) value {
+		w := wgOf(a[0].(*value))
+		w.n += asInt64(conc(a[1]))
+		if ex.threads != nil && w.n <= 0 {
+			ex.threads.wgRelease(fr, w)
+		}
+		return nil
+	})
+	reg("(*sync.WaitGroup).Done", func(fr *frame, a []value) value {
+		w := wgOf(a[0].(*value))
+		w.n--
+		if ex.threads != nil {
+			ex.threads.wgRelease(fr, w)
+		}
+		return nil
+	})
+	reg("(*sync.WaitGroup).Wait", func(fr *frame, a []value) value {
+		w := wgOf(a[0].(*value))
+		if ex.threads != nil {
+			ex.threads.wgWait(fr, w)
+			return nil
+		}
+		if w.n > 0 {
+			panic(engineAbort{"deadlock: WaitGroup.Wait by the only thread"})
+		}
+		return nil
+	})
 
 	// ---- sync/atomic (sequentially consistent under the baton scheduler) ----
 	for _, ty := range []string{"Int32", "Int64", "Uint32", "Uint64", "Uintptr", "Pointer"} {
